@@ -46,6 +46,8 @@ GoodCorrection(ev) ==
     /\ SetOf(r.pre_stamp_vals) \subseteq SetOf(ev.req_stamp_vals) \cup SetOf(ev.src_stamp_vals)
     /\ (ev.combo.copytax /\ ev.src_hastax => r.pre_hastax)     \* the copied summary is recalculated with the new document; only its presence is required
     /\ r.business = ev.src_business
+    \* replicating the correction keeps its business content, the reference to the corrected document included
+    /\ r.rep_pre_same
 
 GoodReplica(ev) ==
     LET r == ev.r IN
